@@ -94,3 +94,19 @@ let handle (toks : string list) : (string * string * string) option =
     let cls = op ^ ":len" ^ string_of_int (List.length ops) ^ (if m <> s && recr then ":kf=D12" else "") in
     Some (m, s, cls)
   | _ -> None
+
+(* C18: several threads, each with its own history on its own objects: every thread's outcome is
+   that of its solo run (the sequential model of that thread's history alone) *)
+let handle_mt (toks : string list) : (string * string * string) option =
+  match toks with
+  | (("mt32" | "mtn") as op) :: _reps :: "|" :: rest ->
+    let rec split acc cur = function
+      | [] -> List.rev (List.rev cur :: acc)
+      | "|" :: tl -> split (List.rev cur :: acc) [] tl
+      | x :: tl -> split acc (x :: cur) tl in
+    let threads = split [] [] rest in
+    let lop = if op = "mt32" then "life32" else "lifen" in
+    let rs = List.map (fun ops -> match handle (lop :: ops) with Some (m, s, _) -> (m, s) | None -> ("?", "?")) threads in
+    Some (String.concat " | " (List.map fst rs), String.concat " | " (List.map snd rs),
+          op ^ ":threads" ^ string_of_int (List.length threads))
+  | _ -> None
